@@ -1976,7 +1976,10 @@ func (s *TreeShapeListener) EnterCollector(ctx *parser.CollectorContext) {
 	}
 
 	if ctx.Collector_stmts(0) != nil {
-		ep.Stmt = []*sysl.Statement{}
+		// a collector of an earlier block of this application keeps its statements
+		if ep.Stmt == nil {
+			ep.Stmt = []*sysl.Statement{}
+		}
 		if ep.Attrs == nil {
 			ep.Attrs = map[string]*sysl.Attribute{}
 		}
